@@ -2,7 +2,7 @@
     MAC is an arbitrary function: the routers recompute the same function, no cryptographic
     hypothesis is needed for these positive results. *)
 From Sci Require Import Gen.NetworkTables Network.Model Network.Spec Network.Proofs Network.Proofs_C01
-     Network.Proofs_Deliver Network.Proofs_Combined Network.Proofs_Peer.
+     Network.Proofs_Deliver Network.Proofs_Combined Network.Proofs_Peer Network.Proofs_Reverse.
 Local Open Scope N_scope.
 
 (** The code that extends a beacon ([SignedPathSegment::add_entry] = [AsEntry::update_macs]
@@ -64,23 +64,26 @@ Print Assumptions combined_path_delivers_partial.
 (** The reply: reverse the arrived packet ([fin]) at its position ([try_reverse]); the result
     is the packet of the reversed path description, which is again authentic hop by hop (the
     SegIDs a traversal leaves behind are the initial values for the opposite direction, the
-    chain relations flip by xor-involution), so the reference router delivers it to the sender
-    wherever the topology carries the way back.  Any path description with authentic
-    MAC-chained segments of at least two hops, in particular (previous theorem) the assembled
-    ones.  PARTIAL: no peering hops, as above. *)
+    chain relations flip by xor-involution) and again carried by the topology (every link
+    leads back: interfaces identify their link, [links_wf]; the link a hop was reached over
+    is up; the valid crossover pairs are symmetric) -- so the reference router delivers it
+    to the sender.  Only the forward conditions are assumed.  Any path description with
+    authentic MAC-chained segments of at least two hops, in particular (previous theorem) the
+    assembled ones.  PARTIAL with respect to the property sentence: peering paths are not
+    covered by this theorem. *)
 Theorem reverse_delivers_partial :
   forall (key : Type) (mac : key -> N -> N -> N -> N -> N -> N) (t : topology key) (now : N)
-         (g : tseg) (rest : list tseg) d r src dst pk',
+         (g : tseg) (rest : list tseg) d r dst pk',
+    links_wf t -> wf_topo t = true ->
     g_hops g = d :: r -> segs_two (g :: rest) ->
-    route_auth mac g d r rest ->
+    route_auth mac g d r rest -> route_topo t now g d r rest dst ->
     fin (all_hops g rest) (glen g :: map glen rest) (final_infos [] g d r rest) dst pk' ->
     exists g2 rest2 d2 r2,
       rev (map rev_seg (g :: rest)) = g2 :: rest2 /\ g_hops g2 = d2 :: r2
-      /\ (route_topo t now g2 d2 r2 rest2 src ->
-          delivers mac t now (length r2 + S (fuel_rest rest2)) (d_ia d2) 0
-                   (mkPkt src (path_reverse (k_path pk'))) src
-                   (fin (all_hops g2 rest2) (glen g2 :: map glen rest2) (final_infos [] g2 d2 r2 rest2) src)).
-Proof. intros. eapply reverse_delivers_desc; eassumption. Qed.
+      /\ delivers mac t now (length r2 + S (fuel_rest rest2)) (d_ia d2) 0
+                  (mkPkt (d_ia d) (path_reverse (k_path pk'))) (d_ia d)
+                  (fin (all_hops g2 rest2) (glen g2 :: map glen rest2) (final_infos [] g2 d2 r2 rest2) (d_ia d)).
+Proof. intros. eapply reverse_delivers_full; eassumption. Qed.
 Print Assumptions reverse_delivers_partial.
 
 (** the assembled paths are such descriptions (links the two theorems) *)
